@@ -11,8 +11,29 @@ NPROC = int(os.environ.get("VERIF_JOBS", "0")) or min(16, os.cpu_count() or 4)
 CASE_TIMEOUT = 120
 
 
-class CaseTimeout(Exception):
+class CaseTimeout(BaseException):
+    """BaseException on purpose: the code under test catches Exception in places"""
+
+
+class InputTimeout(BaseException):
     pass
+
+
+def time_limited(fn, secs):
+    """run fn() under its own alarm of `secs` seconds (the per-case alarm is re-armed
+    afterwards with what was left of it); raises InputTimeout"""
+    def _h(signum, frame):
+        raise InputTimeout()
+    old_h = signal.signal(signal.SIGALRM, _h)
+    left = signal.alarm(int(secs))
+    t0 = time.time()
+    try:
+        return fn()
+    finally:
+        signal.alarm(0)
+        signal.signal(signal.SIGALRM, old_h)
+        if left:
+            signal.alarm(max(1, int(left - (time.time() - t0))))
 
 
 def _alarm(signum, frame):
@@ -66,7 +87,14 @@ def run_cases(modname, cases, rep, nproc=None, chunksize=1):
                 continue
             for k, n in (res.get("counts") or {}).items():
                 rep.count(k, n)
-            rep.case(res.get("key", res["_case"]), res.get("nontrivial", True), res.get("sample"))
+            if "keys" in res:
+                # a batch: the module reports one key per non-trivial item it evaluated
+                rep.evaluations += 1
+                rep.distinct.update(res["keys"])
+                if res.get("sample") is not None and len(rep.samples) < 6:
+                    rep.samples.append(res["sample"])
+            else:
+                rep.case(res.get("key", res["_case"]), res.get("nontrivial", True), res.get("sample"))
             for f in res["findings"]:
                 if f.get("timeout"):
                     timeouts += 1
